@@ -69,12 +69,6 @@ theorem witness_abort_keeps_pending :
 
 /-! ## still present: an attribute write and a structural edit in one transaction (known finding) -/
 
-/-- full statement: after every admissible history no atom outside a transaction carries a hydrogen count computed
-from an outdated environment -/
-def HydrogensFresh : Prop :=
-  ∀ (m : Mol) (h : List (Op × List String)), admissible current (freshWorld m) h = true →
-    ∀ o ∈ (runHist current (freshWorld m) h).objs, o.backup = some none → hStale o.toCore = []
-
 /-- the full statement is false of today's code: `with m: m.atom(3).charge = -1; m.add_bond(4, 1, 1)` leaves atom 3 stale
 because the pending set `{4, 1}` created by the edit does not contain it -/
 theorem hydrogens_fresh_false : ¬ HydrogensFresh := by
